@@ -768,6 +768,101 @@ mod discover {
 	}
 }
 
+mod spawn {
+	use super::*;
+	use std::{path::Path, sync::Arc};
+	use watchexec_supervisor::{
+		command::{Command, Program, Shell, SpawnOptions},
+		job::start_job,
+	};
+
+	/// the strings abstract tokens stand for, by variant
+	fn bind(token: &str, variant: usize) -> String {
+		let pool: [[&str; 3]; 6] = [
+			["plain", "two words", "tab\tand  spaces "],
+			["", "\"double\" 'single'", "$HOME `id` $(id)"],
+			["*", "?[a-z]*.rs", "~"],
+			["line\nbreak", "back\\slash", ";|&<>"],
+			["ünï-cødé", "\u{1F980}", "日本語"],
+			["-c", "--", "-"],
+		];
+		let i = match token { "T1" => 0, "T2" => 1, _ => 2 };
+		pool[variant % 6][i].to_string()
+	}
+
+	fn hex(s: &str) -> String {
+		s.as_bytes().iter().map(|x| format!("{x:02x}")).collect()
+	}
+
+	pub async fn run(case: &Value, scratch: &Path) -> Value {
+		let variant = case["case"].as_u64().unwrap_or(0) as usize;
+		let helper = std::env::current_exe().unwrap().parent().unwrap().join("helper_child");
+		let tmp = tempfile::tempdir_in(scratch).unwrap();
+		let out = tmp.path().join("report.json");
+		let workdir = tmp.path().canonicalize().unwrap();
+		let c = &case["cmd"];
+		let toks = |v: &Value| -> Vec<String> {
+			v.as_array().unwrap().iter().map(|t| bind(t.as_str().unwrap(), variant)).collect()
+		};
+		let b1 = |t: &str| if t == "-c" { "-c".to_string() } else { bind(t, variant) };
+		let program = if c["kind"] == "exec" {
+			Program::Exec { prog: helper.clone(), args: toks(&c["args"]) }
+		} else {
+			Program::Shell {
+				shell: Shell {
+					prog: helper.clone(),
+					options: toks(&c["opts"]),
+					program_option: match c["progopt"].as_str().unwrap() {
+						"-" => None,
+						t => Some(std::borrow::Cow::Owned(b1(t).into())),
+					},
+				},
+				command: bind(c["command"].as_str().unwrap(), variant),
+				args: toks(&c["args"]),
+			}
+		};
+		let expected: Vec<String> = case["argv"]
+			.as_array()
+			.unwrap()
+			.iter()
+			.map(|t| hex(&b1(t.as_str().unwrap())))
+			.collect();
+		let mode = case["mode"].as_str().unwrap();
+		let (job, task) = start_job(Arc::new(Command {
+			program,
+			options: SpawnOptions { grouped: mode == "grouped", session: mode == "session", ..Default::default() },
+		}));
+		let envval = bind("T2", variant + 1);
+		{
+			let out = out.clone();
+			let workdir = workdir.clone();
+			let envval = envval.clone();
+			job.set_spawn_hook(move |cmd, _| {
+				cmd.command_mut().env("VERIF_OUT", &out).env("VERIF_X", &envval).current_dir(&workdir);
+			});
+		}
+		job.start().await;
+		job.to_wait().await;
+		job.delete_now().await;
+		let _ = task.await;
+		let report: Value = match std::fs::read(&out) {
+			Ok(b) => serde_json::from_slice(&b).unwrap_or(Value::Null),
+			Err(e) => return json!({"error": format!("child wrote no report: {e}")}),
+		};
+		let me = unsafe { (libc::getpid(), libc::getpgid(0), libc::getsid(0)) };
+		let pid = report["pid"].as_i64().unwrap_or(0);
+		json!({
+			"argv": report["argv"], "expected_argv": expected,
+			"own_group": report["pgid"].as_i64() == Some(pid),
+			"parent_group": report["pgid"].as_i64() == Some(i64::from(me.1)),
+			"own_session": report["sid"].as_i64() == Some(pid),
+			"parent_session": report["sid"].as_i64() == Some(i64::from(me.2)),
+			"cwd_ok": report["cwd"].as_str() == Some(&workdir.display().to_string()),
+			"env_ok": report["env"].as_str() == Some(&hex(&envval)),
+		})
+	}
+}
+
 fn main() {
 	let args: Vec<String> = std::env::args().collect();
 	let kind = args[1].clone();
@@ -844,6 +939,7 @@ fn main() {
 							"ignore" => ignore::run(case, &scratch).await,
 							"cliflags" => cliflags::run(case, &scratch).await,
 							"signals" => signals::run(case),
+							"spawn" => spawn::run(case, &scratch).await,
 							"discover" => discover::run(case, &scratch).await,
 							"globset" => globset::run(case, &scratch).await,
 							"paths" => paths::run(case),
